@@ -97,6 +97,11 @@ class AstToSqlVisitor(visitor.NodeVisitor):
         # Single quotes for date constants acc SQL Standard
         return f"DATE '{node.val}'"
 
+    def visit_Time(self, node: ast.Time) -> str:
+        ":meta private:"
+        # Single quotes for time constants acc SQL Standard
+        return f"TIME '{node.val}'"
+
     def visit_DateTime(self, node: ast.DateTime) -> str:
         ":meta private:"
         sql_ts = node.val.replace("T", " ")
